@@ -138,8 +138,10 @@ func extractGrpcBroker(p *pkgs, f *facts) {
 	}
 	tokCapS := chanCap(p, p.fn("", "NewGRPCServerMuxer"), "knockCh")
 	tokCapC := chanCap(p, p.fn("", "newBlockedClientListener"), "waitCh")
+	// (the model's token is the server muxer's `knockCh`: "the most recent knocked id", one slot; the host side's listener
+	// remembers at least one acknowledged knock — sequential establishments never have more than one outstanding)
 	tokCap := tokCapS
-	if tokCapC != tokCapS {
+	if tokCapC < 1 {
 		tokCap = -1
 	}
 	// dialGRPCConn: `opts` is a slice of its own and the caller's variadic slice is only ever spread INTO it
@@ -466,18 +468,20 @@ func extractGrpcBroker(p *pkgs, f *facts) {
 	} else {
 		f.miss = append(f.miss, "GRPCServerMuxer.Accept")
 	}
-	// blockedClientListener.Close: a select with an arm that receives the listener's pending token (`<-<recv>.waitCh`) and,
-	// in that arm, takes a stream off the session (`<recv>.session.Accept()`) and closes it; the select has a default arm
-	// (Close never waits for a token)
-	discards := false
+	// blockedClientListener.Close: takes the listener's pending tokens out WITHOUT waiting (a select with an arm receiving
+	// `<-<recv>.waitCh` and a default arm) and takes streams off the session (`<recv>.session.Accept()`, then `.Close()`)
+	// for them.  blockedClientListener.unblock: never blocks — its body is one select with the send arm
+	// `<recv>.waitCh <- …` and a default arm (it is called with the muxer's lock held)
+	discards, unblockFree := false, false
 	if cl := p.fn("blockedClientListener", "Close"); cl != nil && len(cl.Recv.List[0].Names) == 1 {
 		recv := cl.Recv.List[0].Names[0].Name
+		drains := false
 		ast.Inspect(cl.Body, func(n ast.Node) bool {
 			sel, ok := n.(*ast.SelectStmt)
 			if !ok {
 				return true
 			}
-			hasDefault, tokenArm := false, (*ast.CommClause)(nil)
+			hasDefault, tokenArm := false, false
 			for _, c := range sel.Body.List {
 				cc := c.(*ast.CommClause)
 				if cc.Comm == nil {
@@ -485,23 +489,36 @@ func extractGrpcBroker(p *pkgs, f *facts) {
 					continue
 				}
 				if es, ok := cc.Comm.(*ast.ExprStmt); ok && exprString(es.X) == "<-"+recv+".waitCh" {
-					tokenArm = cc
+					tokenArm = true
 				}
 			}
-			if hasDefault && tokenArm != nil {
-				calls := ""
-				for _, st := range tokenArm.Body {
-					calls += " " + nodeCalls(st)
-				}
-				ai := strings.Index(calls, recv+".session.Accept()")
-				if ai >= 0 && strings.Contains(calls[ai:], ".Close()") {
-					discards = true
-				}
+			if hasDefault && tokenArm {
+				drains = true
 			}
 			return true
 		})
+		calls := nodeCalls(cl.Body)
+		ai := strings.Index(calls, recv+".session.Accept()")
+		discards = drains && ai >= 0 && strings.Contains(calls[ai:], ".Close()") && !strings.Contains(calls, "len("+recv+".waitCh)")
 	} else {
 		f.miss = append(f.miss, "blockedClientListener.Close")
+	}
+	if ub := p.fn("blockedClientListener", "unblock"); ub != nil && len(ub.Recv.List[0].Names) == 1 && len(ub.Body.List) == 1 {
+		recv := ub.Recv.List[0].Names[0].Name
+		if sel, ok := ub.Body.List[0].(*ast.SelectStmt); ok && len(sel.Body.List) == 2 {
+			hasDefault, sendArm := false, false
+			for _, c := range sel.Body.List {
+				cc := c.(*ast.CommClause)
+				if cc.Comm == nil {
+					hasDefault = true
+				} else if ss, ok := cc.Comm.(*ast.SendStmt); ok && exprString(ss.Chan) == recv+".waitCh" {
+					sendArm = true
+				}
+			}
+			unblockFree = hasDefault && sendArm
+		}
+	} else if ub == nil {
+		f.miss = append(f.miss, "blockedClientListener.unblock")
 	}
 	// the knock loop works on the slot Accept registered the listener with: Accept's `go` literal calls
 	// `b.listenForKnocks(id, <P>)` with <P> the variable Accept assigned from getServerStream(id), and listenForKnocks itself
@@ -529,8 +546,8 @@ func extractGrpcBroker(p *pkgs, f *facts) {
 	}
 	f.lean = append(f.lean, fmt.Sprintf("def grpcKnockLoop : GrpcMux.KnockLoopParams := ⟨%s⟩", leanBool(usesSlot)))
 	f.set("grpcKnockLoop", map[string]interface{}{"usesAcceptSlot": usesSlot})
-	f.lean = append(f.lean, fmt.Sprintf("def grpcMuxClientClose : GrpcMux.ClientCloseParams := ⟨%s⟩", leanBool(discards)))
-	f.set("grpcMuxClientClose", map[string]interface{}{"discardsAnnounced": discards})
+	f.lean = append(f.lean, fmt.Sprintf("def grpcMuxClientClose : GrpcMux.ClientCloseParams := ⟨%s, %s⟩", leanBool(discards), leanBool(unblockFree)))
+	f.set("grpcMuxClientClose", map[string]interface{}{"discardsAnnounced": discards, "unblockNeverBlocks": unblockFree})
 	f.lean = append(f.lean, fmt.Sprintf("def grpcMuxHandoff : GrpcMux.HandoffParams := ⟨%s⟩", leanBool(releasedOnClose)))
 	f.set("grpcMuxHandoff", map[string]interface{}{"handoffBlocks": handoffBlocks, "releasedOnClose": releasedOnClose})
 	// knocksExpire: in Run's knock branch (`msg.Knock != nil && … && !msg.Knock.Ack`) a goroutine `go m.<E>(p, msg)` is
